@@ -19,12 +19,17 @@ type SinkSpec struct {
 	Name    string
 	Fields  []string // struct fields holding sink functions: calls through them are sinks
 	Calls   []string // callee keys (funcKey) that are sinks
+	CallAt  map[string][]string // callee key -> the only functions that may call it ("@" list; absent: any In function)
 	Values  []string // functions that may be mentioned as values only where listed in ValueIn
 	ValueIn []string
 	In      []string // functions allowed to contain sink calls
 	Outside []string // functions with sinks that do not act for the AWK program (listed, reported)
 	Props   []string
 	Where   string
+	// guard fields: "writers T.f T.g @ F G": only F, G may write (or take the address of) T.f, T.g,
+	// and only they may store a whole T
+	GuardFields []string
+	Writers     []string
 }
 
 func parseSinkSpec(rest string, props []string, where string) (*SinkSpec, error) {
@@ -42,7 +47,31 @@ func parseSinkSpec(rest string, props []string, where string) (*SinkSpec, error)
 		case "field":
 			s.Fields = append(s.Fields, f[1:]...)
 		case "call":
-			s.Calls = append(s.Calls, f[1:]...)
+			// "call a b c @ F G": a, b, c may only be called in F, G (an empty list: nowhere)
+			names, at, hasAt := f[1:], []string(nil), false
+			for i, w := range f[1:] {
+				if w == "@" {
+					names, at, hasAt = f[1:1+i], f[2+i:], true
+					break
+				}
+			}
+			s.Calls = append(s.Calls, names...)
+			if hasAt {
+				if s.CallAt == nil {
+					s.CallAt = map[string][]string{}
+				}
+				for _, n := range names {
+					s.CallAt[n] = append([]string{}, at...)
+				}
+			}
+		case "writers":
+			for i, w := range f[1:] {
+				if w == "@" {
+					s.GuardFields = append(s.GuardFields, f[1:1+i]...)
+					s.Writers = append(s.Writers, f[2+i:]...)
+					break
+				}
+			}
 		case "value":
 			s.Values = append(s.Values, f[1:]...)
 		case "value-in":
@@ -86,6 +115,11 @@ func (w *World) verifySinks(sp *SinkSpec) (res *UnitResult) {
 		valueIn[f] = true
 	}
 	found := map[string][]string{} // function -> sink descriptions
+	bad := map[string]bool{}       // function -> contains a sink it is not allowed to contain
+	callOK := func(callee, in string) bool {
+		at, ok := sp.CallAt[callee]
+		return !ok || contains(at, in)
+	}
 	for fn := range ssautil.AllFunctions(w.prog) {
 		if !w.inRepo(fn) || fn.Pkg == nil || fn.Pkg.Pkg.Name() == "main" {
 			continue // (the command-line tool's own file handling is not what the sandbox flags confine)
@@ -106,7 +140,9 @@ func (w *World) verifySinks(sp *SinkSpec) (res *UnitResult) {
 					}
 					if f, ok := (*op).(*ssa.Function); ok && isValue[funcKey(f)] {
 						if ci, isCall := in.(ssa.CallInstruction); isCall && ci.Common().Value == ssa.Value(f) {
-							found[key] = append(found[key], "call of "+funcKey(f)+" at "+x.pos(in.Pos()))
+							// a direct call of the function the guarded field stands for bypasses the field's contract
+							found[key] = append(found[key], "direct call of "+funcKey(f)+" (bypasses the guarded field) at "+x.pos(in.Pos()))
+							bad[key] = true
 						} else if !valueIn[key] {
 							found[key] = append(found[key], "use of "+funcKey(f)+" as a value at "+x.pos(in.Pos()))
 						}
@@ -124,6 +160,9 @@ func (w *World) verifySinks(sp *SinkSpec) (res *UnitResult) {
 				case *ssa.Function:
 					if isCall[funcKey(f)] {
 						found[key] = append(found[key], "call of "+funcKey(f)+" at "+x.pos(in.Pos()))
+						if !callOK(funcKey(f), key) {
+							bad[key] = true
+						}
 					}
 				case *ssa.UnOp:
 					if fa, ok := f.X.(*ssa.FieldAddr); ok && f.Op == token.MUL {
@@ -134,6 +173,71 @@ func (w *World) verifySinks(sp *SinkSpec) (res *UnitResult) {
 					}
 				}
 			}
+		}
+	}
+	// writers of the guard fields
+	if len(sp.GuardFields) > 0 {
+		guardT := map[string]bool{}
+		for _, gf := range sp.GuardFields {
+			guardT[gf[:strings.LastIndex(gf, ".")]] = true
+		}
+		wfound := map[string][]string{}
+		for fn := range ssautil.AllFunctions(w.prog) {
+			if !w.inRepo(fn) {
+				continue
+			}
+			if pos := fn.Pos(); pos.IsValid() && strings.HasSuffix(w.fset.Position(pos).Filename, "_test.go") {
+				continue
+			}
+			key := funcKey(outermost(fn))
+			for _, b := range fn.Blocks {
+				for _, in := range b.Instrs {
+					switch v := in.(type) {
+					case *ssa.FieldAddr:
+						st0 := deref(v.X.Type())
+						name := typeKey(st0) + "." + fieldName(st0, v.Field)
+						if !contains(sp.GuardFields, name) {
+							continue
+						}
+						for _, r := range *v.Referrers() {
+							if u, ok := r.(*ssa.UnOp); ok && u.Op == token.MUL {
+								continue // a read
+							}
+							if _, ok := r.(*ssa.DebugRef); ok {
+								continue
+							}
+							wfound[key] = append(wfound[key], "write or address-taking of "+name+" at "+x.pos(r.Pos()))
+						}
+					case *ssa.Store:
+						if guardT[typeKey(deref(v.Addr.Type()))] {
+							if _, isAlloc := v.Addr.(*ssa.Alloc); !isAlloc {
+								wfound[key] = append(wfound[key], "store of a whole "+typeKey(deref(v.Addr.Type()))+" at "+x.pos(v.Pos()))
+							}
+						}
+					}
+				}
+			}
+		}
+		var wk []string
+		for k := range wfound {
+			wk = append(wk, k)
+		}
+		sort.Strings(wk)
+		seenWriter := false
+		for _, k := range wk {
+			ok := contains(sp.Writers, k)
+			if ok {
+				seenWriter = true
+				c := w.contracts[k]
+				ok = c != nil && !c.Trusted
+			}
+			x.count["sink"]++
+			x.obls = append(x.obls, &Obligation{Name: fmt.Sprintf("sinks.%s/writers/%s", sp.Name, k), Kind: "sink-site", Func: "sinks " + sp.Name,
+				Desc:  fmt.Sprintf("%s writes the guard fields [%s]: only the listed writers (under contract) may", k, strings.Join(wfound[k], "; ")),
+				Pos:   sp.Where, Goal: x.c.Bool(ok), Props: sp.Props, Clause: "sinks", ctx: x})
+		}
+		if !seenWriter {
+			res.Err = "CHECK-ERROR: no listed writer writes the guard fields (vacuous)"
 		}
 	}
 	var keys []string
@@ -151,7 +255,7 @@ func (w *World) verifySinks(sp *SinkSpec) (res *UnitResult) {
 			res.Ledger = append(res.Ledger, "sink site outside the sandbox's scope (acts for the tool, not for the AWK program): "+k)
 			continue
 		}
-		ok := allowed[k]
+		ok := allowed[k] && !bad[k]
 		if ok {
 			// the function must be under a contract that serves the property
 			c := w.contracts[k]
